@@ -215,7 +215,7 @@ func (ex *Exec) load(st *State, lv *LValue) Val {
 		raw := ex.rootLeaf(st, lv, nav.lo+i)
 		t := selectN(raw, nav.idxs)
 		l := stripDims(rootLeaves[nav.lo+i], len(nav.idxs))
-		if lv.Kind != lvCell && len(l.Dims) == 0 {
+		if lv.Kind != lvCell && len(l.Dims) == 0 && ex.sc.pure == 0 {
 			hint := "ld"
 			switch l.Kind {
 			case lkSliceLen:
@@ -228,7 +228,7 @@ func (ex *Exec) load(st *State, lv *LValue) Val {
 		}
 		out.L[i] = t
 	}
-	if lv.Kind != lvCell {
+	if lv.Kind != lvCell && ex.sc.pure == 0 {
 		ex.assumeWF(st, out)
 	}
 	return out
